@@ -175,7 +175,7 @@ func cmdCheck(args []string) int {
 			outf := filepath.Join(scratch, fmt.Sprintf("o%d.json", i))
 			pj, _ := json.Marshal(ts.Params)
 			a := []string{"run", "-pkg", o.Pkg, "-fn", o.Fn, "-files", strings.Join(o.Files, ","), "-o", outf,
-				"-params", string(pj), "-known", string(knownJSON)}
+				"-params", string(pj), "-known", string(knownJSON), "-grace-s", "60"}
 			if tier == "thorough" {
 				r.dumpDir = filepath.Join(scratch, fmt.Sprintf("dump%d", i))
 				os.MkdirAll(r.dumpDir, 0o755)
@@ -264,6 +264,9 @@ func cmdCheck(args []string) int {
 		smp["params"] = res.Params
 		smp["queries"] = map[string]int{"sat": res.NSat, "unsat": res.NUnsat, "unknown": res.NUnknown}
 		var problems []string
+		if res.StoppedEarly != "" {
+			smp["stopped_early"] = res.StoppedEarly
+		}
 		if len(res.Unsupported) > 0 {
 			problems = append(problems, "unsupported: "+strings.Join(uniq(res.Unsupported, 3), " | "))
 		}
